@@ -1026,6 +1026,50 @@ def case_block_sizes(ctx, cls, sizes):
                 ctx.judged(("block-size", cls, m, how, fid), sample={"class": cls, "rows": m, "path": how})
 
 
+def case_text_sizes(ctx, cls, megabytes):
+    """OPB texts of 1, 3, 4.5, 8.5 ... MiB (rows of 60-64 terms), just beyond the sizes at which writers that collect
+    their output in memory hand a block over: every constraint read back must be the one in memory."""
+    K = classes()[cls]
+    with TempDir() as tmp:
+        serial = 0
+        for mb in megabytes:
+            F = K()
+            n = 400
+            F.update_variable_number(n)
+            target = int(mb * (1 << 20))
+            size, i = 0, 0
+            rows = []
+            while size < target:
+                w = 60 + i % 5
+                if cls.startswith("CNF"):
+                    row = [(1 if (i + j) % 3 else -1) * (((i * 13 + j * 7) % n) + 1) for j in range(w)]
+                    size += sum(len(str(abs(l))) + 5 for l in row) + 8
+                    rows.append(row)
+                else:
+                    row = [(1 + (i + j) % 3, (1 if (i + j) % 4 else -1) * (((i * 13 + j * 7) % n) + 1)) for j in range(w)]
+                    size += sum(len(str(abs(l))) + 6 for _, l in row) + 8
+                    rows.append(row + [">=" if i % 2 else "==", 1 + i % 3])
+                i += 1
+            if cls.startswith("CNF"):
+                F.add_clauses_from(rows, check=False)
+            else:
+                for row in rows:
+                    F.add_constraint(row, check=False)
+            mem = Memory(F)
+            fid = mem.digest(F)
+            for how in ("explicit", "writer"):
+                serial += 1
+                st, out = render(ctx, F, (how, "opb", bool(serial % 2), False), tmp, serial)
+                label = "%s %s(opb) of a formula with %d rows, about %.1f MiB of text" % (cls, how, len(rows), mb)
+                if st == "exc":
+                    ctx.violation("render:opb:%s:raises:%s" % (mem.kind.upper(), type(out).__name__), "%s raised %r" % (label, out))
+                else:
+                    ctx.count("opb_text_megabytes", len(out) >> 20)
+                    judge_opb(ctx, F, mem, out, label, bool(serial % 2), False)
+                ctx.count("text_size_cases")
+                ctx.judged(("text-size", cls, mb, how, fid), sample={"class": cls, "rows": len(rows), "MiB": mb, "path": how})
+
+
 def case_long_lines(ctx, cls):
     """Header values, descriptions and variable names far longer than a terminal line (one line each): the OPB text
     must keep them inside comments, whatever the writer does to long lines."""
@@ -1232,10 +1276,53 @@ def case_locale(ctx):
         shutil.rmtree(tmp, ignore_errors=True)
 
 
+def case_dead_address(ctx):
+    """A formula is rendered and dropped; the interpreter then places another formula -- same class, same number of
+    variables, other names, other rows -- at the address of the dead one.  Its renderings must show its own names."""
+    import gc
+    from .. import semantic as S
+    from cnfgen.formula.cnf import CNF
+    from cnfgen.formula.opb import OPB
+    for K in (CNF, OPB):
+        for size in (40, 1000, 1300, 2500):
+            F1 = K()
+            b1 = F1.new_block(size, label="p_{{{}}}")
+            F1.add_clause([b1(1), -b1(size)])
+            F1.add_clause([b1(2)])
+            texts1 = (F1.to_latex(), F1.to_opb())
+            dead = id(F1)
+            del F1, b1
+            gc.collect()
+            F2 = S.at_the_address_of(dead, K)
+            if F2 is None:
+                ctx.count("dead_address_not_handed_out_again")
+                continue
+            ctx.count("formulas_at_the_address_of_a_dead_one")
+            b2 = F2.new_block(size, label="q_{{{}}}")
+            F2.add_clause([-b2(1), b2(size), b2(3)])
+            for how, text in (("to_latex()", F2.to_latex()), ("to_opb(export_varnames)", None)):
+                if text is None:
+                    buf = io.StringIO()
+                    F2.to_file(buf, fileformat="opb", export_varnames=True)
+                    text = buf.getvalue()
+                ctx.count("renderings_at_a_dead_address")
+                if "p_{" in text or "p}_{" in text or "q" not in text:
+                    ctx.violation("%s:shows-the-names-of-a-dead-formula" % ("latex" if "latex" in how else "opb"),
+                                  "%s formula with %d variables q_{i}, created at the address of a collected formula with variables p_{i} "
+                                  "that had been rendered: %s shows %r" % (K.__name__, size, how, [t for t in text.split() if "_{" in t][:4]))
+            if K is CNF:
+                mem = None
+            ctx.judged(("dead-address", K.__name__, size), nontrivial=True, sample={"class": K.__name__, "variables": size})
+
+
 def workload(tier, seed):
     quick = tier == "quick"
+    for cls in ("CNF", "OPB"):
+        for mbs in ([4.5], [8.5], [1.1, 2.2]) if quick else ([4.5], [8.5], [16.5], [1.1, 2.2, 3.3], [33]):
+            yield "text_sizes", {"cls": cls, "megabytes": mbs}
     yield "tiny", {}
     yield "locale", {}
+    yield "dead_address", {}
     for cls in ("CNF", "OPB"):
         for where in ("header", "varname"):
             yield "shield", {"cls": cls, "where": where}
